@@ -940,6 +940,8 @@ std::vector<Entry> const& entries()
         add_writers<unsigned char>(v, "uint8");
         add_writers<int>(v, "int32");
         add_writers<long long>(v, "int64");
+        add_writers<unsigned>(v, "uint32"); // compiles since the from_integer<unsigned> fix (/repo c02e715)
+        add_writers<unsigned long long>(v, "uint64");
         v.push_back(make_entry<F_to_string_exact<int>, tabW, ClsW, 90>("to_string<Capacity>(int)"));
         v.push_back(make_entry<F_to_string_exact<long long>, tabW, ClsW, 90>("to_string<Capacity>(long long)"));
         v.push_back(make_entry<F_strcpy_exact, tabSX, ClsSX, 60>(F_strcpy_exact::name));
